@@ -434,6 +434,9 @@ class Doc:
         if k == "nested-removable":
             if depth >= 2:
                 return "<script>%s</script>" % self.hostile_raw()
+            if rng.random() < 0.25:
+                self.features.add("selfclosed-removable")
+                return f'<{r} data="a.png"/>' + self.hid()     # same-name empty element inside the removed element
             r2 = rng.choice(["script", "style", "noscript", "iframe", "object", "applet", "embed"])
             return self.removable(r2, depth + 1)
         if k == "comment":
@@ -471,6 +474,10 @@ class Doc:
         if r == "embed":
             self.features.add("void-removable")
             return rng.choice(['<embed src="m.swf" type="%s">' % self.hid(), "<embed src=x>", '<embed src="x"/>'])
+        if rng.random() < 0.15:
+            # XML empty-element syntax of a NON-void removable element: html.parser delivers Start;End
+            self.features.add("selfclosed-removable")
+            return f"<{r}" + rng.choice([' src="x.js"/>', "/>", ' data="a.png" />', ' type="text/css"/>'])
         if r in ("script", "style"):
             attrs = rng.choice(["", "", ' type="text/x"', " defer"])
             return f"<{r}{attrs}>{self.hostile_raw()}</{r}>"
@@ -542,6 +549,16 @@ class Doc:
         out.append(f"<p>{self.vis()}</p>")
         return "\n".join(out)
 
+
+# how a document may END (input truncated inside a construct): nothing of the tail is visible text
+EOF_TAILS = {
+    "open-comment": ["<!-- %s <b>bold</b> never terminated", "<!--%s", "<!-- %s --", "<!-- %s -", "<!--[if IE]><p>%s</p>"],
+    "open-cdata": ["<![CDATA[ %s", "<![CDATA[ <p>%s</p> ]]", "<![if !IE]%s"],
+    "open-tag": ['<p class="%s', "<img alt='%s", "<a href=%s", "</p %s", '<div data-x="%s" '],
+    "open-decl": ["<!DOCTYPE %s", "<?xml-stylesheet %s", "<!ELEMENT %s"],
+    "open-raw-text": ["<script>var %s = 1;", "<style>.%s{}", "<script><!-- %s", '<script type="x">document.write("<p>%s</p>")'],
+    "open-removable": ["<noscript>%s", '<iframe src="x"><p>%s</p>', "<object><param name=a>%s", "<applet>%s <b>x</b>"],
+}
 
 TOK = re.compile(r"(?:vis|hid)\d+z")
 
@@ -672,10 +689,13 @@ def text_level(ctx, H, E):
     rng = ctx.rng
     fails = ctx.extra.setdefault("oracle_failures", {})
 
-    def evaluate(body, doc, head_extra=""):
-        """returns list of (path, reason)"""
+    def evaluate(body, doc, head_extra="", tail=None):
+        """returns list of (path, reason); with `tail` the input ends right after the tail (truncated document)"""
         bad = []
         full = wrap_full(body, head_extra)
+        if tail is not None:
+            body = body + "\n" + tail
+            full = full[:full.rindex("</body>")] + tail
         try:
             res = run_paths(body, full, H, E, mods)
         except Exception as ex:  # noqa
@@ -729,6 +749,31 @@ def text_level(ctx, H, E):
     for path, why in bad:
         ctx.finding(f"{family(path, bad)}:order-around-removed", f"{path}: {why} for {body!r}", {"path": path, "html_body": body, "why": why,
                     "visible": d.visible, "cells": d.cells, "hidden": d.hidden})
+
+    # the document ends inside an unterminated construct: every tail form ---------------------------------
+    for kind, tails in EOF_TAILS.items():
+        for tl in tails:
+            d = Doc(rng)
+            d.visible, d.hidden = ["vis1z", "vis2z"], ["hid1z", "hid2z"]
+            body = "<p>vis1z</p><script>var hid2z = 1;</script><p>vis2z</p>"
+            ctx.case(("text-eof", body, tl), True, kind="text-eof")
+            bad = evaluate(body, d, tail=tl % "hid1z")
+            for path, why in bad:
+                ctx.finding(f"{family(path, bad)}:eof-{kind}", f"{path}: {why} for a document ending in {tl % 'hid1z'!r}",
+                            {"path": path, "html_body": body + "\n" + tl % "hid1z", "truncated": True, "why": why,
+                             "visible": d.visible, "hidden": d.hidden})
+    # self-closed (XML empty-element) forms of the non-void removable elements, also nested in their own kind
+    for r in [x for x in STATEMENT_REMOVED if x not in STD_VOID]:
+        for body in (f'<p>vis1z</p><{r} src="x.js"/><p>vis2z</p>', f"<p>vis1z</p><{r}/><p>vis2z</p>",
+                     f'<p>vis1z <{r} data="a"/> vis2z</p>',
+                     *([] if r in ("script", "style") else [f'<p>vis1z</p><{r} data="a.svg"><{r} data="a.png"/>hid1z</{r}><p>vis2z</p>'])):
+            d = Doc(rng)
+            d.visible, d.hidden = ["vis1z", "vis2z"], ["hid1z"]
+            ctx.case(("text-probe", body), True, kind="text-probe")
+            bad = evaluate(body, d)
+            for path, why in bad:
+                ctx.finding(f"{family(path, bad)}:selfclosed-removable", f"{path}: {why} for {body!r}",
+                            {"path": path, "html_body": body, "why": why, "visible": d.visible, "hidden": d.hidden})
 
     # fixed probes: every removable tag x every single kind of content -------------------------------
     probes = {
@@ -786,6 +831,16 @@ def text_level(ctx, H, E):
         nontriv = any(f.startswith("rem:") for f in d.features)
         ctx.case(("doc", body), nontriv, kind="text-doc")
         bad = evaluate(body, d)
+        if not bad and rng.random() < 0.5:
+            # the same document with its input truncated inside an unterminated construct
+            ek = rng.choice(sorted(EOF_TAILS))
+            tl = rng.choice(EOF_TAILS[ek]) % d.hid()
+            ctx.case(("doc-eof", body, tl), True, kind="text-doc-eof")
+            bad_t = evaluate(body, d, tail=tl)
+            for path, why in bad_t:
+                ctx.finding(f"{family(path, bad_t)}:eof-{ek}", f"{path}: {why} for a generated document ending in {tl!r}",
+                            {"path": path, "html_body": body + "\n" + tl, "truncated": True, "why": why,
+                             "visible": d.visible, "cells": d.cells, "hidden": d.hidden})
         for path, why in bad:
             fam = family(path, bad)
             # classify by the single-content probes of the same family that fail too
@@ -801,7 +856,7 @@ def text_level(ctx, H, E):
                         kind = k
                         break
             if kind == "other":
-                kind = next((k for k in ("hostile-raw", "embed-child", "order") if k in d.features), "other")
+                kind = next((k for k in ("selfclosed-removable", "hostile-raw", "embed-child", "order") if k in d.features), "other")
             key = f"{fam}:{kind}" if kind in ("void-removable", "comment-visible") else f"{fam}:removed-{kind}"
             ctx.finding(key, f"{path}: {why} for generated document", {"path": path, "html_body": body, "why": why,
                                                                          "visible": d.visible, "cells": d.cells, "hidden": d.hidden})
@@ -996,12 +1051,14 @@ def chapters_independent(ctx, H, E):
 
 
 # ----------------------------------------------------------------------------- feed-level correspondence
-def recording(cls):
+def recording(cls, registry=None):
     """Subclass that records the handler calls html.parser makes, then lets the real handler run."""
     class Rec(cls):
         def __init__(self):
             super().__init__()
             self.events = []
+            if registry is not None:
+                registry.append(self)
 
         def handle_starttag(self, tag, attrs):
             self.events.append(("S", tag, tuple(attrs)))
@@ -1038,11 +1095,13 @@ def feed_correspondence(ctx, H, E):
             ("html", H._HtmlTreeBuilder, lambda p: html_obs(p)[0], html_obs_coq, "(html_case html_remove html_void)", "list event * html_obs"),
             ("epub", E._XhtmlTextExtractor, epub_obs, epub_obs_coq, "(epub_case epub_remove epub_void epub_block ws_table)", "list event * epub_obs")):
         Rec = recording(cls)
-        cases, raised = [], []
+        cases, raised, stream_bad = [], [], []
         for doc in docs:
             try:
                 p = Rec()
                 p.feed(doc)
+                if merged(p.events) != ref_stream(doc):
+                    stream_bad.append(doc)
                 cases.append(f"({evs_coq(p.events)}, {obs_coq(obs(p))})")
                 ctx.case((name + "-feed", doc), "<" in doc, kind=f"{name}-feed")
             except Exception as ex:  # noqa
@@ -1050,9 +1109,79 @@ def feed_correspondence(ctx, H, E):
         ok, failing, log = coq_eval_shards(ctx, name + "feed", pre, fn, cases, shard=250, ty=ty)
         ctx.traces += len(cases)
         ctx.disagreements += len(failing)
+        ctx.obligation(f"protocol:{cls.__name__}.feed(document) delivers html.parser's default event stream (empty-element = Start;End, "
+                       "raw-text elements, character references)", not stream_bad, f"{len(stream_bad)} documents, first {stream_bad[:1]!r}"[:600])
         ctx.obligation(f"correspondence:{cls.__name__}.feed(document) state == model on the tokenizer's event stream",
                        ok and not failing and not raised,
                        (f"{len(failing)} disagreements of {len(cases)}, first: {docs[failing[0]] if failing else ''!r}; raised {raised[:1]} " + log)[:1500])
+
+
+def merged(evs):
+    """event stream with adjacent Data events joined (chunking is not part of the protocol)"""
+    out = []
+    for e in evs:
+        e = (e[0], e[1].lower(), tuple(e[2])) if e[0] == "S" else (e[0], e[1].lower()) if e[0] == "E" else tuple(e)
+        if e[0] == "D" and out and out[-1][0] == "D":
+            out[-1] = ("D", out[-1][1] + e[1])
+        else:
+            out.append(e)
+    return out
+
+
+def ref_stream(doc):
+    """What html.parser's DEFAULT tokenizer delivers for feed(doc) (no close()): the oracle the model assumes."""
+    from html.parser import HTMLParser
+    Ref = recording(HTMLParser)
+    p = Ref()
+    p.feed(doc)
+    return merged(p.events)
+
+
+def protocol_correspondence(ctx, H, E):
+    """At the real call sites (read_html, msg _html_to_text, read_epub chapter) the handler objects receive exactly
+    the default html.parser event stream of feed(document): no flush at EOF, no re-tokenisation, no rewriting,
+    default empty-element handling (Start;End)."""
+    from unittest import mock
+    import importlib
+    M = importlib.import_module("sharepoint2text.parsing.extractors.mail.msg_email_extractor")
+    rng = ctx.rng
+    docs = ['<p>a</p><script src="x.js"/><p>b</p><br/><hr/><object data="a"/>c', "<p>a &amp; b R&D</p><!-- open", "<p>a</p>tail text R&D",
+            "<p>a</p><![CDATA[ x", '<p>a</p><p class="x', "<p>a</p><script>var x;", "<p>A&T</p><noscript/>x<style/>y"]
+    for _ in range(ctx.n(60, 400)):
+        d = Doc(rng)
+        body = d.body(rng.randint(1, 3))
+        doc = body if rng.random() < 0.4 else wrap_full(body)
+        if rng.random() < 0.5:
+            tl = rng.choice(EOF_TAILS[rng.choice(sorted(EOF_TAILS))]) % d.hid()
+            doc = (doc[:doc.rindex("</body>")] if "</body>" in doc else doc + "\n") + tl
+        docs.append(doc)
+    bad = []
+    for doc in docs:
+        want = ref_stream(doc)
+        sites = []
+        reg = []
+        with mock.patch.object(H, "_HtmlTreeBuilder", recording(H._HtmlTreeBuilder, reg)):
+            list(H.read_html(io.BytesIO(doc.encode("utf-8"))))
+        sites.append(("read_html", reg))
+        reg = []
+        with mock.patch.object(M, "_HtmlTreeBuilder", recording(H._HtmlTreeBuilder, reg)):
+            M._html_to_text(doc)
+        sites.append(("msg:_html_to_text", reg))
+        reg = []
+        with mock.patch.object(E, "_XhtmlTextExtractor", recording(E._XhtmlTextExtractor, reg)):
+            list(E.read_epub(io.BytesIO(epub_bytes(doc))))
+        sites.append(("read_epub:chapter", reg))
+        for site, reg in sites:
+            ctx.case(("protocol", site, doc), True, kind="protocol")
+            if len(reg) != 1:
+                bad.append((site, doc, f"{len(reg)} handler objects constructed"))
+            elif merged(reg[0].events) != want:
+                got = merged(reg[0].events)
+                i = next((k for k in range(min(len(got), len(want))) if got[k] != want[k]), min(len(got), len(want)))
+                bad.append((site, doc, f"event {i}: delivered {got[i:i + 2]!r}, default feed() gives {want[i:i + 2]!r}"))
+    ctx.traces += 3 * len(docs)
+    ctx.obligation("protocol:real call sites deliver exactly html.parser's default feed(document) event stream to the handlers",
+                   not bad, (f"{len(bad)} of {3 * len(docs)}; first: {bad[0] if bad else ''!r}")[:1200])
 
 
 # ----------------------------------------------------------------------------- replay
@@ -1087,7 +1216,10 @@ def replay(ctx, rp):
         mods = {"mhtml": importlib.import_module("sharepoint2text.parsing.extractors.mhtml_extractor"),
                 "msg": importlib.import_module("sharepoint2text.parsing.extractors.mail.msg_email_extractor")}
         body = rp["html_body"]
-        res = run_paths(body, wrap_full(body), H, E, mods)
+        full = wrap_full(body)
+        if rp.get("truncated"):
+            full = full[:full.rindex("\n</body>")]
+        res = run_paths(body, full, H, E, mods)
         ctx.case(("replay", body), True, kind="replay")
         for path, (text, extra, tables) in res.items():
             why = check_tokens(text, extra, rp.get("visible", []), rp.get("cells", []), rp.get("hidden", []), tables)
@@ -1166,6 +1298,15 @@ def tokenizer_facts(ctx, H, E):
                 if len(c.args) != 1 or not isinstance(c.args[0], ast.Name):
                     problems.append(f"{rel}:{fn.name}:{c.lineno}: feed() argument is not a plain name: {ast.unparse(c)}")
                     continue
+                if isinstance(c.func.value, ast.Name):
+                    recv = c.func.value.id
+                    called = sorted({x.func.attr for x in ast.walk(fn) if isinstance(x, ast.Call) and isinstance(x.func, ast.Attribute)
+                                     and isinstance(x.func.value, ast.Name) and x.func.value.id == recv})
+                    extra_calls = [m for m in called if m not in ("feed", "get_tree", "get_text", "get_title", "get_tables")]
+                    if extra_calls:
+                        problems.append(f"{rel}:{fn.name}: parser protocol is not feed()+getters: also calls {extra_calls}")
+                else:
+                    problems.append(f"{rel}:{fn.name}:{c.lineno}: feed() receiver is not a plain name")
                 var = c.args[0].id
                 defs = [a for a in ast.walk(fn) if isinstance(a, ast.Assign) and any(isinstance(tg, ast.Name) and tg.id == var for tg in a.targets)]
                 defs += [a for a in ast.walk(fn) if isinstance(a, (ast.AugAssign, ast.AnnAssign)) and isinstance(a.target, ast.Name) and a.target.id == var]
@@ -1218,7 +1359,7 @@ def run(ctx):
 
     ctx.prove("C17/Props.v", ["C17/Proofs.vo"], expected=[
         "C17_html_noninterference", "C17_html_outputs_equal", "C17_html_void_removable", "C17_html_comment_inert",
-        "C17_html_text_preserved", "C17_html_all_text_without_removable",
+        "C17_html_text_preserved", "C17_html_all_text_without_removable", "C17_html_text_monotone",
         "C17_epub_noninterference", "C17_epub_outputs_equal", "C17_epub_void_removable", "C17_epub_comment_inert"])
     ctx.prove("C17/Inst.v", ["Gen/C17Tables.vo", "C17/Corr.vo", "C17/Proofs.vo"], expected=[
         "C17_html_tables_wf", "C17_epub_tables_wf", "C17_statement_tags_removed",
@@ -1228,6 +1369,7 @@ def run(ctx):
     tokenizer_facts(ctx, H, E)
     event_correspondence(ctx, H, E)
     feed_correspondence(ctx, H, E)
+    protocol_correspondence(ctx, H, E)
     event_oracle(ctx, H, E)
     text_level(ctx, H, E)
     chapters_independent(ctx, H, E)
